@@ -499,8 +499,11 @@ type ltrGate struct {
 
 func (g *ltrGate) Information() *model.NodeManagementDetailedDiscoveryEntityInformationType {
 	if g.armed.CompareAndSwap(true, false) {
+		// take the release channel BEFORE announcing the entry: the harness may re-arm this very gate (rmove to the
+		// entity the read is held at) as soon as it has seen the entry
+		rel := g.release
 		close(g.entered)
-		<-g.release
+		<-rel
 	}
 	return g.EntityLocal.Information()
 }
@@ -713,7 +716,7 @@ func runLtrHistory(r *h.Report, d *h.Driver, ops []string) {
 	// ---- a read held in the middle of its walk (rhold / rmove / rrelease)
 	var ov *ltrOvl
 	defer func() {
-		if ov != nil { // history ended (or was abandoned) with the read still held: let it finish
+		if ov != nil && ov.release != nil { // history ended (or was abandoned) with the read still held: let it finish
 			close(ov.release)
 			select {
 			case <-ov.readDone:
@@ -755,9 +758,12 @@ func runLtrHistory(r *h.Report, d *h.Driver, ops []string) {
 			}
 			old := ov.release
 			g = arm(k)
+			ov.release = nil
 			close(old)
 		case f[0] == "rrelease" && len(f) == 1 && ov != nil:
-			close(ov.release)
+			old := ov.release
+			ov.release = nil
+			close(old)
 		default:
 			// not applicable here (a shrunk or hand-written history): not executed, not sent to the model
 			r.Eval(f[0]+":ignored", "")
@@ -841,9 +847,14 @@ func runLtrHistory(r *h.Report, d *h.Driver, ops []string) {
 			}
 			continue
 		}
-		if ov != nil && (f[0] == "renew" || f[0] == "readheld") {
-			// a fresh object for a slot / a second held read while a read is held: outside the model of the
-			// overlapped read (the read keeps the objects it has taken); not executed, not sent to the model
+		if ov != nil && f[0] == "readheld" && len(f) == 5 {
+			// a second held read while a read is held: only its AddEntity / RemoveEntity is performed
+			f = f[3:]
+			op = strings.Join(f, " ")
+		}
+		if ov != nil && f[0] == "renew" {
+			// a fresh object for a slot while a read is held: outside the model of the overlapped read (the read
+			// keeps the objects it has taken); not executed, not sent to the model
 			r.Eval(f[0]+":ignored-during-read", "")
 			continue
 		}
